@@ -401,7 +401,7 @@ class Engine:
         for pid, p in sorted(self.procs.items()):
             if p.state == "spawned" and self.lock_free(p.paths["lock"]):
                 opts.append(("plock", pid))
-            elif p.state in ("body", "skip"):
+            elif p.state in ("body", "skip") and not self.hold_exit():
                 opts.append(("pexit", pid))
         if main:
             opts.append(("main",))
@@ -536,10 +536,27 @@ class Engine:
         """Between two main-thread operations: anything may happen"""
         while True:
             opts = self.enabled(main=True)
+            if self.hold_main() and len(opts) > 1:
+                opts = opts[:-1]
             o = self.choose(opts)
             if o[0] == "main":
                 return
             self.perform(o)
+
+    def hold_exit(self):
+        """Fault sweep with long-running jobs: no job process ends before the planned scheduler death"""
+        if not self.plan.get("slowprocs"):
+            return False
+        return self.phase == "run" and any(op[0] == "kill" for op in self.plan["program"][self.mainpos + 1:])
+
+    def hold_main(self):
+        """Fault sweep: the `kill` of the main program is delayed until `killat` events were recorded"""
+        killat = self.plan.get("killat")
+        if killat is None:
+            return False
+        prog = self.plan["program"]
+        nxt = prog[self.mainpos + 1] if self.mainpos + 1 < len(prog) else None
+        return nxt is not None and nxt[0] == "kill" and len(self.trace) < killat
 
     def drain(self):
         """After the main program: let the world finish (processes of a dead scheduler)"""
@@ -825,10 +842,13 @@ class Engine:
 
 # ---------------------------------------------------------------- choosers
 class RandomChooser:
-    def __init__(self, seed, pstep=0.5, pmain=0.3):
+    PROFILES = [(0.5, 0.3), (0.7, 0.05), (0.3, 0.1), (0.9, 0.02), (0.2, 0.02), (0.5, 0.6)]
+
+    def __init__(self, seed, pstep=None, pmain=None):
         self.rng = random.Random(seed)
-        self.pstep = pstep
-        self.pmain = pmain
+        prof = self.PROFILES[self.rng.randrange(len(self.PROFILES))]
+        self.pstep = prof[0] if pstep is None else pstep
+        self.pmain = prof[1] if pmain is None else pmain
 
     def choose(self, labels, engine):
         if "step" in labels and self.rng.random() < self.pstep:
